@@ -104,9 +104,20 @@ def _one_load(version, tmp, ext, main_bytes, bak_bytes, expect, stats, case, lab
             fh.write(bak_bytes)
     where = f"[{ext}, {label}, via {api}]"
     with persist.TimerPatch() as fake:
-        drv = drive.Driver(version, "sync", persistence=True, persistence_file=given)
+        drv = drive.Driver(version, "async" if api == "async_start_persistence" else "sync", persistence=True, persistence_file=given)
         try:
-            if api == "start_persistence":
+            if api == "async_start_persistence":
+                # the asyncio gateways load through their own start_persistence coroutine
+                import asyncio
+
+                async def start_and_cancel():
+                    await drv.gw.start_persistence()
+                    for task in asyncio.all_tasks():
+                        if task is not asyncio.current_task():
+                            task.cancel()
+
+                asyncio.run(start_and_cancel())
+            elif api == "start_persistence":
                 drv.gw.start_persistence()
             else:
                 drv.gw.tasks.persistence.safe_load_sensors()
@@ -157,6 +168,7 @@ def check_case(case, stats=None, only=None, part=(0, 1), collect=None):
             with persist.TimerPatch() as fake:
                 main_data, s_main = make_file(fake, version, path, case["main"])
                 bak_data, s_bak = make_file(fake, version, path, case["bak"])
+                none_data, _ = make_file(fake, version, path, [])  # a complete save of an empty network
         except Exception as exc:  # pylint: disable=broad-except
             v = Violation(f"clean_save_raises.{type(exc).__name__}", case, f"fault-free start/save/stop cycle used to prepare the files raised {type(exc).__name__}: {exc}")
             if collect is None:
@@ -170,8 +182,12 @@ def check_case(case, stats=None, only=None, part=(0, 1), collect=None):
             guarded(version, tmp, ext, main_data, bak_data, s_main, stats, case, "main intact, backup intact", "safe_load_sensors")
             guarded(version, tmp, ext, None, bak_data, s_bak, stats, case, "main missing, backup intact", "start_persistence")
             guarded(version, tmp, ext, None, None, empty, stats, case, "both missing", "start_persistence")
+            guarded(version, tmp, ext, none_data, bak_data, empty, stats, case, "main intact (empty network), backup intact", "start_persistence")
+            guarded(version, tmp, ext, None, bak_data, s_bak, stats, case, "main missing, backup intact", "async_start_persistence", "bare")
+            guarded(version, tmp, ext, main_data[: len(main_data) // 2], bak_data, s_bak, stats, case, "main trunc@half, backup intact", "async_start_persistence")
+            guarded(version, tmp, ext, main_data, bak_data, s_main, stats, case, "main intact, backup intact", "async_start_persistence")
             if stats is not None:
-                stats.evaluations += 4
+                stats.evaluations += 8
         backups = [("absent", None), ("intact", bak_data)] + [("bak-" + lab, d) for lab, d in damage_variants(bak_data, sampled=True)]
         mains = [("missing", None)] + list(damage_variants(main_data, sampled=False))
         count = 0
@@ -183,7 +199,7 @@ def check_case(case, stats=None, only=None, part=(0, 1), collect=None):
                 if only is not None and label != only:
                     continue
                 expect = s_bak if blab == "intact" else empty
-                api = "start_persistence" if count % 5 == 0 else "safe_load_sensors"
+                api = "start_persistence" if count % 5 == 0 else ("async_start_persistence" if count % 7 == 3 else "safe_load_sensors")
                 count += 1
                 guarded(version, tmp, ext, mdata, bdata, expect, stats, case, label, api, SHAPES[(idx + bi) % 4])
                 if stats is not None:
